@@ -69,6 +69,10 @@ def gen_case(rng, mode=None):
     """A build directory description: dict with everything robsd-report reads."""
     mode = mode or rng.choice(MODES)
     c = dict(mode=mode, rows=[], logs={}, comment=None, tags=None, cvs=[], pkgdiff=None, target=None, sizes=[], hasprev=False)
+    if mode == "canvas" and rng.random() < 0.3:
+        # canvas names as canvas.conf allows them: also long ones with spaces (the subject line carries the name)
+        c["cname"] = rng.choice([b"nightly lint of the knfmt pick robsd and yank trees on amd64 and arm64 boxes",
+                                 b"x" * rng.choice([40, 60, 70, 78, 79, 120]), b"a b", b"name: with colon"])
     if mode in SCHED:
         names = SCHED[mode]
         seq = True
@@ -123,7 +127,8 @@ def gen_case(rng, mode=None):
     if mode == "robsd-ports":
         c["pkgdiff"] = None if rng.random() < 0.15 else b"+new-1.0\n-old-0.9\n\n"
     if mode == "robsd-cross":
-        c["target"] = None if rng.random() < 0.05 else rng.choice([b"arm64\n", b"riscv64", b"octeon\nextra\n"])
+        c["target"] = None if rng.random() < 0.05 else rng.choice([b"arm64\n", b"riscv64", b"octeon\nextra\n",
+                                                                    b"a-cross-target-with-a-name-that-goes-on-and-on-well-beyond-what-fits-a-mail-subject-line\n"])
     if mode == "robsd" and rng.random() < 0.7:
         c["hasprev"] = True
         for fn in REL_FILES:
@@ -158,7 +163,7 @@ class ReportRunner:
         self.host = socket.gethostname().split(".")[0].encode()
         self.n = 0
 
-    def conf(self, mode, root):
+    def conf(self, mode, root, cname="cname"):
         d = root
         body = {
             "robsd": 'robsddir "%s"\ndestdir "%s"\nbsd-srcdir "%s"\ncvs-root "example.com:/cvs"\ncvs-user "nobody"\nx11-srcdir "%s"\n' % (d, d, d, d),
@@ -166,7 +171,7 @@ class ReportRunner:
             "robsd-ports": 'robsddir "%s"\nchroot "%s"\ncvs-root "example.com:/cvs"\ncvs-user "nobody"\nports-dir "/ports"\nports-user "nobody"\nports { "devel/robsd" }\n' % (d, d),
             "robsd-regress": 'robsddir "%s"\nbsd-srcdir "%s"\ncvs-user "nobody"\n' % (d, d) +
                              "".join('regress "%s"%s\n' % (s, " quiet" if s in QUIET else "") for s in SUITES),
-            "canvas": 'canvas-name "cname"\ncanvas-dir "%s"\nstep "first" command { "true" }\n' % d,
+            "canvas": 'canvas-name "%s"\ncanvas-dir "%s"\nstep "first" command { "true" }\n' % (cname, d),
         }[mode]
         p = os.path.join(root, "%s.conf" % mode)
         with open(p, "w") as f:
@@ -217,12 +222,12 @@ class ReportRunner:
                     sparse(os.path.join(prev, "rel", fn), psize)
                     if fn != "CHANGELOG" and ".diff." not in fn:
                         sizes.append("%s:%d:%d" % (hexb(fn.encode()), size, psize))
-        conf = self.conf(c["mode"], root)
+        conf = self.conf(c["mode"], root, c.get("cname", b"cname").decode())
         rc, out, err = core.run_cmd([os.path.join(self.build, "robsd-report"), "-m", c["mode"], "-C", conf, b],
                                     env=dict(os.environ, ASAN_OPTIONS="detect_leaks=0"))
         logs = ",".join("%s:%s" % (hexb(r[5].encode()), hexb(c["logs"][r[5]]) if r[5] in c["logs"] else "!") for r in c["rows"] if r[5])
         req = "report mode=%s host=%s canvas=%s machine=%s target=%s builddir=%s steps=%s comment=%s tags=%s pkgdiff=%s hasprev=%d cvs=%s suites=%s quiet=%s sizes=%s logs=%s" % (
-            c["mode"], hexb(self.host), hexb(b"cname"), hexb(b"x86_64"), "!" if c["target"] is None else hexb(c["target"]), hexb(b.encode()), hexb(csv),
+            c["mode"], hexb(self.host), hexb(c.get("cname", b"cname")), hexb(b"x86_64"), "!" if c["target"] is None else hexb(c["target"]), hexb(b.encode()), hexb(csv),
             "!" if c["comment"] is None else hexb(c["comment"]), "!" if c["tags"] is None else hexb(c["tags"]),
             "!" if c["pkgdiff"] is None else hexb(c["pkgdiff"]), 1 if c["hasprev"] else 0,
             ",".join("!" if x is None else hexb(x) for x in c["cvs"]) or ".",
